@@ -73,3 +73,8 @@ def global_view(ctx):
     if drift:
         print("SPEC-DRIFT: %d cluster-wide views satisfy the statement but differ from the transcription of "
               "globalPinInfoCid/globalPinInfoSlice (first: %s)" % (len(drift), json.dumps(recs[drift[0] - 1])), flush=True)
+
+
+def replay(ctx, path):
+    ctx.rule = "replay of one stored script"
+    tc.replay_script(ctx, path, ["agree", "truthful", "filter"])
